@@ -290,11 +290,11 @@ class C15(vlib.Driver):
             seen = f"(Some {obs['ok']})" if "ok" in obs else "None"
             return f"check_vect true {sp} {o} {seen}"
         # the MultiDiscrete (step, env) defect: pinned semantics when the tree raises, repaired semantics otherwise
-        mdf = "true" if (is_md_rank3(case) and "ok" in obs) else "false"
+        mdf = "true"                     # MultiDiscrete is batched with the space's own shape since fff6764
         tol = TOL_NORM if uses_inexact_norm(case) else "0"
         seen = f"(Some {coq_pobs(case, obs['ok'])})" if "ok" in obs else "None"
-        # rank-0 Box: repaired semantics (explicit feature axis, (B, 1)) iff the tree produces it
-        r0 = "true" if ("ok" in obs and _rank0_has_feature_axis(case, obs["ok"])) else "false"
+        # rank-0 Box: the tree (since 69cb5f0) gives scalar Box observations an explicit feature axis, (B, 1)
+        r0 = "true"
         return f"check_prep_r {r0} {mdf} {'true' if case['normalize'] else 'false'} {tol} {sp} {o} {seen}"
 
     # ---------- oracle: the property stated directly on the implementation's behaviour
@@ -351,10 +351,9 @@ class C15(vlib.Driver):
         members = _members(case, obs["ok"])
         for name, leafspec, arr, got in members:
             want_shape = [B] + net_input_shape(leafspec)
-            rank0 = leafspec["t"] == "box" and leafspec["shape"] == []
-            # rank-0 Box: (B,) [space shape] and (B, 1) [encoder input: one feature] are both accepted here; whether the
-            # networks can consume it is decided by the agent-level batch cases
-            if got["shape"] != want_shape and not (rank0 and got["shape"] == [B, 1]):
+            if leafspec["t"] == "box" and leafspec["shape"] == []:
+                want_shape = [B, 1]                          # a scalar Box is one input feature of the encoder
+            if got["shape"] != want_shape:
                 out.append(Violation("prep-shape", f"prep:{site}:shape", f"member {name}: shape {got['shape']}, expected {want_shape} (lead {lead})"))
                 continue
             if got["dtype"] != "torch.float32":
